@@ -43,6 +43,18 @@ CHECKS = {
    text="TLC computes on Namespaces.tla the accept/refuse verdict of every version list (<= 2 entries quick, <= 3 thorough) over 7 partnered versions x 4 prefixes from facts read out of the XML files (withStandard, library-specific tag names) and checks RefuseTwice/RefuseClash/DispatchTotal; load_schema_version is replayed on each list (accept vs documented HedFileError, prefixes answered). Annotation trees from HedRules.tla (exhaustive <= 3 nodes + deep simulated) are validated prefixed against 5 schema groups and unprefixed against the prefix's schema alone - error multisets must agree for every prefix incl. the empty one; unknown / non-alphabetic prefixes must yield TAG_NAMESPACE_PREFIX_INVALID; every partnered library is compared tag by tag with its standard partner (independent XML reader)",
    note="unknown version numbers are not enumerated (network); bounded list length and tree size",
    technique="TLA+ spec + TLC decision table; differential replay of TLC-generated annotations"),
+ "C06": dict(
+   text="Assemble.tla defines, for a template tree (2 tag tokens, groups, references {A} {B}) in a categorical or value host column, a referenced column A that is categorical / value / the HED column, and every combination of cell states (ok, n/a, unknown key, empty), which template nodes survive and which columns are listed separately; TLC checks NoEmptyGroup, ParentsSurvive, NotListedTwice on every template <= 3 nodes (<= 4 thorough, plus simulated templates <= 6 nodes) and emits the prescribed rows; each case becomes a real sidecar + events table (16-24 rows, random column order and spacing) run through TabularInput series_a / dataframe_a / assemble twice: rows compared as trees, delimiter well-formedness, repeatability, table (values, columns, dtypes) and sidecar unchanged",
+   note="bounded template size; rows compared up to sibling order; unknown category keys treated like n/a",
+   technique="TLA+ spec + TLC model checking; exhaustive case replay with TLC-computed expected rows"),
+ "C15": dict(
+   text="Query.tla models the search result-set semantics of query_expressions.py (ordered <<group, children>> results, upward propagation, merge by identity, Or duplicate filter, negation, [ ], { }, {:}, wildcards, quote/star/path term modes) and the query tokenizer + parser (pushdown automaton and recursive descent, strict and lenient); TLC checks OrIff, AndOnlyIfBoth, AndSymmetric, AndAssociative, AndDistinctTags, SiblingOrderInvariant on all annotation trees in bounds, PDAEqualsRD and UnbalancedRejected on all token strings <= 4 (5 thorough), with sensitivity and vacuity runs; every emitted (annotation, query, boolean) and every query text is replayed on the real QueryHandler over TLC-validated families of real 8.3.0 tags; laws, repeatability, no-mutation and sibling-order invariance are re-checked on the code; deep random tuples are judged by TLC in trace mode",
+   note="built by a sub-agent under the same brief; only clauses of the statement gate a violation, other model/code disagreements are reported as spec drift",
+   technique="TLA+ spec + TLC model checking; exhaustive behaviour replay; TLC trace validation"),
+ "C18": dict(
+   text="Backup.tla models the data tree, backup copies and backup_lock.json at file-system-step granularity (mkdir, copy open/chunks/metadata, lock open/write pieces/close), Crash at every step, Reopen (= constructing BackupManager: omits / raises / lists), modify, delete, damage, restore[tasks], remodel, create-again; TLC checks NeverHalfValid, NoOverwrite, RestoreIdentity, RestoreTasksOnlyThose, RemodelFromOriginals, RemodelIdempotent etc. and rejects three defective designs (record first, overwrite, read live); every crash prefix of the real create_backup I/O sequence (child process stepped by Python-level FS shims, SIGKILL) followed by a fresh BackupManager, TLC histories through the real CLIs and seeded random runs are compared step by step with the spec state (bytes hashed) and validated by Trace_Backup",
+   note="built by a sub-agent under the same brief; Python-level interposition of file operations; bounded trees (<= 3 files exhaustively, 5 random)",
+   technique="TLA+ spec + TLC model checking; crash-point enumeration on real processes; TLC trace validation"),
 }
 ALL = ["C%02d" % i for i in range(1, 21)]
 m = {
